@@ -188,17 +188,18 @@ Definition mk_phase (name : string) (sg : option Z) (pg : option string) (lat : 
 Definition zmax (l : list Z) : Z := match l with [] => 0%Z | k :: r => fold_right Z.max k r end.
 
 (* PhaseList(ids=, names=, space_groups=, point_groups=, structures=) : one
-   entry per index up to the longest list; missing entries are None; a missing
-   id is max(ids) + k.  The dict is sorted by id (a repeated id overwrites). *)
+   entry per index up to the longest list; missing entries are None (an entry
+   of `point_groups` may itself be None); a missing id is max(ids) + k.  The
+   dict is sorted by id (a repeated id overwrites). *)
 Fixpoint phaselist_loop (n : nat) (i : nat) (iter : Z) (ids : list Z) (names : list string)
-    (sgs : list (option Z)) (pgs : list string) (lats : list (list T))
+    (sgs : list (option Z)) (pgs : list (option string)) (lats : list (list T))
     (acc : list (Z * phase)) : result (list (Z * phase)) :=
   match n with
   | 0%nat => Ok acc
   | S n' =>
       let name := nth i names "" in
       let sg := nth i sgs None in
-      let pg := nth_error pgs i in
+      let pg := nth i pgs None in
       let lat := nth i lats default_lat in
       let '(id, iter') := match nth_error ids i with
                           | Some k => (k, iter)
@@ -208,7 +209,7 @@ Fixpoint phaselist_loop (n : nat) (i : nat) (iter : Z) (ids : list Z) (names : l
         phaselist_loop n' (S i) iter' ids names sgs pgs lats (zset id p acc))
   end.
 Definition phaselist (ids : list Z) (names : list string) (sgs : list (option Z))
-    (pgs : list string) (lats : list (list T)) : result (list (Z * phase)) :=
+    (pgs : list (option string)) (lats : list (list T)) : result (list (Z * phase)) :=
   let n := fold_right Nat.max 0%nat [List.length ids; List.length names; List.length sgs; List.length pgs; List.length lats] in
   phaselist_loop n 0 0%Z ids names sgs pgs lats [].
 
